@@ -288,6 +288,19 @@ func genLogEx(k *kernel.K, id, conn int, last bool, odd bool) *logEx {
 			rs.Framing = "cl"
 		}
 	}
+	if odd && e.reqKind == "none" && rs.Status != 204 && w.Chance(1, 6) {
+		// HEAD: the response carries the headers the GET would have had (framing and coding
+		// included, RFC 7230 section 3.3.1) and no body
+		r.Method = "HEAD"
+		if rs.Framing == "chunked" {
+			rs.Header = append(rs.Header, wire.HF{Name: "Transfer-Encoding", Value: "chunked"})
+		} else {
+			rs.HeadCL = len(rs.Body)
+		}
+		rs.Trailer = nil
+		e.odd = "head_request"
+		k.Probe("odd_head_request")
+	}
 	if rs.Status == 204 {
 		rs.Framing, rs.Body, e.respPlain, e.respCE, rs.Trailer = "none", nil, nil, "", nil
 		var hs []wire.HF
